@@ -33,16 +33,35 @@ def execute(pid, chk, overrides=None):
     del _ip.OPAQUE[:]
     # a host-vector layout whose index expressions were not decoded makes every column
     # classification a guess: nothing derived from it is a verdict
+    # (only when a documented column family is left without an index attribute: an extra class
+    # attribute with a non-linear value, assigned next to the indices, is not part of the layout)
+    from .layout import lf_key
+    have = {lf_key(f) for f in ctx.layout.forms.values()}
+    missing = [fam for fam, (start, _) in ctx.layout.doc.items() if lf_key(start) not in have]
     undecoded = sorted(n for n, f in ctx.layout.forms.items()
-                       if any(k.startswith("?") for k in f))
-    if undecoded:
+                       if any(k.startswith("?") for k in f)) if missing else []
+    if ctx.layout.failed:
+        chk.blanket = f"the host-vector layout was not decoded ({ctx.layout.failed})"
+    elif undecoded:
         chk.blanket = ("the host-vector layout was not decoded (index attribute(s) "
                        + ", ".join(undecoded[:4]) + " have an unrecognised form)")
     try:
         mod.run(ctx, chk)
     except AnalysisError as e:
-        if undecoded:
+        if getattr(chk, "blanket", None):
             chk.undecided("engine.layout", str(e)[:200], chk.blanket)
-        elif not private_anchor_missing(chk, e):
+        elif private_anchor_missing(chk, e):
+            pass
+        elif _ip.OPAQUE:
+            # a rule could not decode the shape it met, in a run that went through constructs the
+            # engine has no model of: not a verdict, and not a broken analysis either
+            q, what, loc, _ = _ip.OPAQUE[0]
+            chk.undecided("engine.shape", str(e)[:300], f"the analysed code uses {what} (in {q} at "
+                          f"{loc}); the remaining obligations of this check were not evaluated")
+        else:
             raise
+    except Exception as e:
+        if not getattr(chk, "blanket", None):
+            raise
+        chk.undecided("engine.layout", f"{type(e).__name__}: {str(e)[:160]}", chk.blanket)
     return mod, ctx
